@@ -64,3 +64,57 @@ def _stmt_containing(h: ast.ExceptHandler, node: ast.AST) -> ast.AST:
         if isinstance(st, ast.stmt) and not isinstance(st, (ast.If, ast.Try, ast.With)) and any(x is node for x in ast.walk(st)):
             best = st
     return best
+
+
+def check_shared_future_awaits(eng, run, rule: str, minimum: int = 1) -> None:
+    """a future stored in an attribute by one method and awaited by another outlives the awaiting task: awaiting it bare lets the
+    cancellation of that task (a shutdown, a timeout) cancel the future itself - every later waiter then finishes at once.  Such
+    futures are awaited only through asyncio.shield()."""
+    from ..db import dotted
+    n = 0
+    for ci in eng.db.classes.values():
+        if not ci.module.name.startswith("easynetwork."):
+            continue
+        created: dict[str, set[str]] = {}
+        for m in ci.methods.values():
+            if isinstance(m.node, ast.Lambda) or m.self_name is None:
+                continue
+            for a in own_nodes(m.node):
+                if isinstance(a, (ast.Assign, ast.AnnAssign)) and isinstance(getattr(a, "value", None), ast.Call) and (dotted(a.value.func) or "").split(".")[-1] in ("create_future", "Future"):
+                    for t in (a.targets if isinstance(a, ast.Assign) else [a.target]):
+                        if isinstance(t, ast.Attribute) and dotted(t.value) == m.self_name:
+                            created.setdefault(t.attr, set()).add(m.name)
+        for m in ci.methods.values():
+            if isinstance(m.node, ast.Lambda) or not m.is_async or m.self_name is None:
+                continue
+            aliases = {t.id: dotted(a.value) for a in own_nodes(m.node) if isinstance(a, ast.Assign) and isinstance(a.value, ast.Attribute) and dotted(a.value.value) == m.self_name
+                       for t in a.targets if isinstance(t, ast.Name)}
+
+            def shared(e):
+                d = dotted(e)
+                if isinstance(e, ast.Name) and e.id in aliases:
+                    d = aliases[e.id]
+                if d and d.startswith(m.self_name + "."):
+                    attr = d.split(".", 1)[1]
+                    if attr in created and m.name not in created[attr]:
+                        return attr
+                return None
+
+            for node in own_nodes(m.node):
+                if isinstance(node, ast.Await):
+                    v = node.value
+                    attr = shared(v)
+                    shielded = None
+                    if attr is None and isinstance(v, ast.Call) and (dotted(v.func) or "").split(".")[-1] == "shield" and v.args:
+                        attr = shared(v.args[0])
+                        shielded = True if attr else None
+                    elif attr is not None:
+                        shielded = False
+                    if attr is None:
+                        continue
+                    n += 1
+                    if not shielded:
+                        run.finding(rule, m, node, f"`await {ast.unparse(v)[:50]}`: the future lives in `{attr}` (created in {sorted(created[attr])}) and is awaited bare - cancelling this task "
+                                    "cancels the future itself, so the next call that waits on it returns at once (a stopped server cannot serve again)")
+                    run.ob(rule, f"{ci.name}.{m.name}:await {attr}:shielded", bool(shielded))
+    run.floor(f"{rule} awaits on futures shared through an attribute", n, minimum)
